@@ -1,6 +1,6 @@
 """C08  modular_vmap and Vmap are lane-wise maps, for densities and for sampling.
 
-Part A (modular_vmap): 14 functions (deterministic, log-density sites, sampling sites, sites with
+Part A (modular_vmap): 27 functions (deterministic, log-density sites, sampling sites, sites with
 sample_shape, scan / cond inside, nested modular_vmap, pytree arguments, event-shaped
 parameters, per-lane parameters of differing rank) x every applicable axis specification
 (0, 1, -1, None, tuples, pytrees of those) x axis_size given / inferred.
@@ -75,6 +75,39 @@ def _functions():
         return jax.lax.scan(body, mu, None, length=2)[1]
 
     F["scan_inside"] = (scan_in, lambda N: (A(N),), [0], "sample")
+
+    # sites two control-flow levels deep (no site directly in the outer body)
+    def scan_cond_in(mu):
+        def body(c, i):
+            z = jax.lax.cond(i % 2 == 0, lambda: normal.sample(c, 1.0), lambda: normal.sample(c, 2.0) + 1.0)
+            return 0.5 * z + mu, z
+
+        return jax.lax.scan(body, mu, jnp.arange(2))[1]
+
+    F["scan_cond_inside"] = (scan_cond_in, lambda N: (A(N),), [0], "sample")
+
+    def scan_scan_in(mu):
+        def inner(c, _):
+            z = normal.sample(c, 1.0)
+            return 0.5 * z, z
+
+        def outer(c, _):
+            c2, zs = jax.lax.scan(inner, c + mu, None, length=2)
+            return c2, zs
+
+        return jax.lax.scan(outer, mu, None, length=2)[1]
+
+    F["scan_scan_inside"] = (scan_scan_in, lambda N: (A(N),), [0], "sample")
+
+    def scan_cond_noise(mu):
+        # lane-independent parameters two levels deep: one draw per lane all the same
+        def body(c, i):
+            e = jax.lax.cond(i >= 0, lambda: normal.sample(0.0, 1.0), lambda: normal.sample(0.0, 1.0) * 1.0)
+            return c + e, e
+
+        return mu + jax.lax.scan(body, 0.0, jnp.arange(2))[1]
+
+    F["scan_cond_noise"] = (scan_cond_noise, lambda N: (A(N),), [0], "sample")
 
     def cond_in(mu):
         return jax.lax.cond(mu > 0.0, lambda: normal.sample(mu, 1.0), lambda: normal.sample(mu, 3.0) * 2.0)
@@ -488,7 +521,7 @@ def items(tier):
     its = [("mvmap", n) for n in (
         "det_2args", "det_matrix", "det_axis1", "det_pytree", "logpdf", "logpdf_vecvalue", "logpdf_mvn_axis1", "logpdf_kwargs",
         "sample", "sample_two_sites", "sample_shape", "sample_axis1", "sample_axis2_matrix", "logpdf_axis2_matrix", "sample_categorical_axis2", "sample_mvn", "sample_mvn_axis1", "sample_rank_mix", "sample_rank_mix_square", "sample_unmapped_site",
-        "scan_inside", "cond_inside", "nested_modular_vmap", "axis_size_only", "flip_site",
+        "scan_inside", "scan_cond_inside", "scan_scan_inside", "scan_cond_noise", "cond_inside", "nested_modular_vmap", "axis_size_only", "flip_site",
     )]
     for c in ("chain", "two", "disc", "vecsite"):
         for v in ("repeat", "axes0", "tuple_axes"):
@@ -504,7 +537,7 @@ def main(tier, seed):
         its = [it for it in its if only in str(it)]
     res, errors = H.fan_out("checks.c08", "work", its, tier, seed)
     rule = (
-        "A: 21 functions x N in {2,3} x every listed in_axes spec x axis_size given/inferred (Cartesian); sampling functions run monitored and with "
+        "A: 27 functions x N in {2,3} x every listed in_axes spec x axis_size given/inferred (Cartesian); sampling functions run monitored and with "
         "every lane of every site scripted to a distinct value, each lane re-run alone under its own draws; B: 4 callees x {repeat, in_axes=0, tuple in_axes} x "
         "3 scripted corner traces x {simulate, assess, generate, update, regenerate}; states = (function, axes, N) cases / vectorised traces, transitions = real calls"
     )
